@@ -16,8 +16,15 @@ def gen_design(r, ncells=None, nlibs=None):
         uid[0] += 1
         return "%s%d" % (prefix, uid[0])
 
+    last = {}
+
     def namedef(prefix, weird=0.3):
         i = ident(prefix)
+        prev, last[prefix] = last.get(prefix), i
+        if prev is not None and r.random() < 0.08:
+            # the original name differs from the (usually sibling's) previous identifier only in letter case: legal, since
+            # identifiers are case-insensitive but names are not - the writer had to rename one of  ack / Ack
+            return (i, prev.capitalize() if prev.capitalize() != prev else prev.upper())
         if r.random() < weird:
             return (i, r.choice(["%s[x]", "%s.orig", "\\%s ", "%s/sub", "%s name", "$%s", "%s_o", "o_%s", "n_%s"]) % i)
         return (i, None)
